@@ -46,6 +46,7 @@ def check(repo, col, tier):
     cable.check_axial(repo, col, {"roles": "R-C12-conductances", "cap": "R-C12-conductances"}, want=("roles", "cap"))
     col.rule("R-C12-ends", "a cell's branch-point edges attach at each branch's own first / last compartment", 4)
     c01_solver._ends(repo, col, "R-C12-ends")
+    c01_solver.category_major(repo, col, "R-C12-ends")
     # "listing sibling branches in a different order only permutes the result": the level schedule must pick the branches of a level
     # wherever they are listed, and the padded solver layout must place every compartment by its own branch (shared with C01/C02)
     col.rule("R-C12-levels", "level bookkeeping, branch-point grouping and within-branch edge tables", 8)
